@@ -122,7 +122,10 @@ func r03_1(c *Ctx, r *Report) {
 }
 
 // parityOf: 0 even, 1 odd, -1 unknown.
-func parityOf(v ssa.Value, depth int) int {
+func parityOf(v ssa.Value, depth int) int { return parityIn(v, nil, depth) }
+
+// parityIn is parityOf with known parities for some parameters (those of a helper at one call site).
+func parityIn(v ssa.Value, env map[*ssa.Parameter]int, depth int) int {
 	if depth > 6 {
 		return -1
 	}
@@ -130,14 +133,19 @@ func parityOf(v ssa.Value, depth int) int {
 		return int(((k % 2) + 2) % 2)
 	}
 	switch x := v.(type) {
+	case *ssa.Parameter:
+		if p, ok := env[x]; ok {
+			return p
+		}
+		return -1
 	case *ssa.BinOp:
 		switch x.Op {
 		case token.MUL:
-			if parityOf(x.X, depth+1) == 0 || parityOf(x.Y, depth+1) == 0 {
+			if parityIn(x.X, env, depth+1) == 0 || parityIn(x.Y, env, depth+1) == 0 {
 				return 0
 			}
 		case token.ADD, token.SUB:
-			a, b := parityOf(x.X, depth+1), parityOf(x.Y, depth+1)
+			a, b := parityIn(x.X, env, depth+1), parityIn(x.Y, env, depth+1)
 			if a >= 0 && b >= 0 {
 				return (a + b) % 2
 			}
@@ -147,12 +155,12 @@ func parityOf(v ssa.Value, depth int) int {
 		p := -1
 		for _, e := range x.Edges {
 			if bo, ok := e.(*ssa.BinOp); ok && (bo.Op == token.ADD || bo.Op == token.SUB) && bo.X == ssa.Value(x) {
-				if parityOf(bo.Y, depth+1) != 0 {
+				if parityIn(bo.Y, env, depth+1) != 0 {
 					return -1
 				}
 				continue
 			}
-			q := parityOf(e, depth+1)
+			q := parityIn(e, env, depth+1)
 			if q < 0 || (p >= 0 && p != q) {
 				return -1
 			}
@@ -178,6 +186,34 @@ func r03_2(c *Ctx, r *Report) {
 		}
 		w, ok := want[fname(s.fn)]
 		if !ok {
+			// a selector loop moved into an unexported helper: judged once per call from a selector function,
+			// with the parities of the arguments passed there
+			if s.fn.Object() != nil && !s.fn.Object().Exported() {
+				for _, caller := range c.Funcs {
+					cw, isSel := want[fname(caller)]
+					if !isSel {
+						continue
+					}
+					for _, b := range caller.Blocks {
+						for _, ins := range b.Instrs {
+							call, isCall := ins.(*ssa.Call)
+							if !isCall || call.Common().StaticCallee() != s.fn {
+								continue
+							}
+							env := map[*ssa.Parameter]int{}
+							for i, a := range call.Common().Args {
+								if i < len(s.fn.Params) {
+									env[s.fn.Params[i]] = parityOf(a, 0)
+								}
+							}
+							n++
+							p := parityIn(s.idx, env, 0)
+							construct := uniq(seen, fmt.Sprintf("%s via %s: JIE_QI_IN_USE[%s]", fname(caller), fname(s.fn), describeIndex(s.idx)))
+							r.check(p == cw, rule, construct, c.pos(call.Pos()), fmt.Sprintf("index parity %s, required %s (even positions are Jie, odd positions are Qi)", map[int]string{0: "even", 1: "odd", -1: "unknown"}[p], map[int]string{0: "even", 1: "odd"}[cw]))
+						}
+					}
+				}
+			}
 			continue
 		}
 		n++
@@ -457,7 +493,11 @@ func r03_5(c *Ctx, r *Report) {
 		}
 		comps := map[string]bool{}
 		var bad []string
-		for _, b := range fn.Blocks {
+		var blocks []*ssa.BasicBlock
+		for _, f := range withHelpers(c, fn) {
+			blocks = append(blocks, f.Blocks...)
+		}
+		for _, b := range blocks {
 			iff, ok := b.Instrs[len(b.Instrs)-1].(*ssa.If)
 			if !ok {
 				continue
@@ -704,4 +744,34 @@ func r03_8(c *Ctx, r *Report) {
 		}
 		r.check(okAll && len(bad) == 0, rule, construct, c.fnPos(fn), fmt.Sprintf("set = %s of the %d entries of parity %d, lookup by %s of the key; %d keys checked; deviations: %v", f, half, parity, g, 2*half, headList(bad, 4)))
 	}
+}
+
+// withHelpers: fn and the unexported functions of its package it reaches by static calls (depth <= 3):
+// a piece of fn moved into a helper is still read as part of fn.
+func withHelpers(c *Ctx, fn *ssa.Function) []*ssa.Function {
+	out := []*ssa.Function{fn}
+	seen := map[*ssa.Function]bool{fn: true}
+	var walk func(f *ssa.Function, depth int)
+	walk = func(f *ssa.Function, depth int) {
+		if depth > 3 {
+			return
+		}
+		for _, b := range f.Blocks {
+			for _, ins := range b.Instrs {
+				call, ok := ins.(ssa.CallInstruction)
+				if !ok {
+					continue
+				}
+				callee := call.Common().StaticCallee()
+				if callee == nil || seen[callee] || callee.Pkg != fn.Pkg || callee.Object() == nil || callee.Object().Exported() || callee.Blocks == nil {
+					continue
+				}
+				seen[callee] = true
+				out = append(out, callee)
+				walk(callee, depth+1)
+			}
+		}
+	}
+	walk(fn, 0)
+	return out
 }
